@@ -422,6 +422,57 @@ def conn_array(faces, w, base, fill, store):
     return a
 
 
+UGRID_OPTIONAL = ["edge_node_connectivity", "edge_face_connectivity", "face_edge_connectivity", "face_face_connectivity",
+                  "node_face_connectivity", "node_edge_connectivity"]
+
+
+def ugrid_optional_elements(faces, n):
+    """dialect-independent description of every optional table: name -> (element lists, number of target elements)"""
+    edges, fe, ef = edges_of(faces)
+    inc = incidence(faces, n)
+    vedges = [[] for _ in range(n)]
+    for e, (a, b) in enumerate(edges):
+        vedges[a].append(e)
+        vedges[b].append(e)
+    ff = [[g for e in r for g in ef[e] if g != fi] for fi, r in enumerate(fe)]
+    return dict(edge_node_connectivity=(edges, n), edge_face_connectivity=(ef, len(faces)), face_edge_connectivity=(fe, len(edges)),
+                face_face_connectivity=(ff, len(faces)), node_face_connectivity=(inc, len(faces)), node_edge_connectivity=(vedges, len(edges)))
+
+
+def ugrid_table(d, rows, n_elem, t):
+    """one connectivity variable written in its OWN dialect `t`; status 'ok' (inside the quantifier of
+    ugrid_roundtrip), 'ambiguous' (undeclared base and the lowest index unused: no verdict) or 'outside'"""
+    if not rows or any(len(r) == 0 for r in rows):
+        return None, None, "outside", None
+    w = max(map(len, rows)) + t["extra_w"]
+    fill = t["fill"]
+    if fill is None and any(len(r) != w for r in rows):
+        fill = t["fill"] = -1
+    arr = conn_array(rows, w, t["base"], fill, t["store"])
+    at = {}
+    if fill == "nanattr":
+        at["_FillValue"] = np.nan
+    elif fill not in (None, "nan"):
+        at["_FillValue"] = NP_STORE[t["store"]](fill)
+    if t["declared"]:
+        at["start_index"] = np.int32(t["base"])
+    enc = lambda decl: " ".join([str(t["base"]), "1" if decl else "0", enc_fill(fill), str(STORE_CODE[t["store"]])])
+    mesh_enc = enc_rows(rows)
+    status = "ok"
+    if d.ask("C01.wf", n_elem, w, mesh_enc) != "1":
+        status = "outside"
+    elif d.ask("C01.dialectok", enc(t["declared"]), n_elem, w, mesh_enc) != "1":
+        status = "ambiguous" if (not t["declared"] and d.ask("C01.dialectok", enc(True), n_elem, w, mesh_enc) == "1") else "outside"
+    if status != "outside":
+        # the harness-side variable is the one the theorem's `encodeUgrid` describes
+        lean_src = d.ask("C01.ugrid_enc", enc(t["declared"]), w, mesh_enc)
+        mine = " ".join([enc_optcell(at.get("_FillValue")), enc_optint(at.get("start_index")), enc_raw(arr)])
+        if lean_src != mine:
+            return arr, at, "encode-mismatch", (mine[:300], lean_src[:300])
+    pad = [list(r) + [INT_FILL] * (w - len(r)) for r in rows]
+    return arr, at, status, pad
+
+
 def case_ugrid(ctx, case, sc):
     import uxarray as ux
     import xarray as xr
@@ -429,8 +480,6 @@ def case_ugrid(ctx, case, sc):
     d, dl = ctx.driver, case["dialect"]
     faces = case["faces"]
     n = len(case["lon"])
-    w = max(map(len, faces)) + dl["extra_w"]
-    arr = conn_array(faces, w, dl["base"], dl["fill"], dl["store"])
     nm = dl["names"]
     ds = xr.Dataset()
     ds[nm["mesh"]] = xr.DataArray(np.int32(0), attrs=dict(cf_role="mesh_topology", topology_dimension=2,
@@ -438,60 +487,89 @@ def case_ugrid(ctx, case, sc):
                                                          face_node_connectivity=nm["conn"]))
     ds[nm["x"]] = xr.DataArray(src_lon(case), dims=[nm["nd"]], attrs=dict(standard_name="longitude", units="degrees_east"))
     ds[nm["y"]] = xr.DataArray(np.asarray(case["lat"], float), dims=[nm["nd"]], attrs=dict(standard_name="latitude", units="degrees_north"))
-    at = dict(cf_role="face_node_connectivity")
-    if dl["fill"] == "nanattr":
-        at["_FillValue"] = np.nan
-    elif dl["fill"] not in (None, "nan"):
-        at["_FillValue"] = NP_STORE[dl["store"]](dl["fill"])
-    if dl["declared"]:
-        at["start_index"] = np.int32(dl["base"])
-    ds[nm["conn"]] = xr.DataArray(arr, dims=[nm["fd"], nm["md"]], attrs=at)
-    edges = None
-    if dl.get("edges"):
-        # a supplied edge table in the same index base (no padding needed: rows of two)
-        edges, _, _ = edges_of(faces)
-        eat = dict(cf_role="edge_node_connectivity")
-        if dl["declared"]:
-            eat["start_index"] = np.int32(dl["base"])
-        ds[nm["conn"] + "_edges"] = xr.DataArray((np.array(edges) + dl["base"]).astype(NP_STORE[dl["store"]]), dims=["nEdgesSrc", "Two"], attrs=eat)
-        ds[nm["mesh"]].attrs["edge_node_connectivity"] = nm["conn"] + "_edges"
-
-    denc = " ".join([str(dl["base"]), "1" if dl["declared"] else "0", enc_fill(dl["fill"]), str(STORE_CODE[dl["store"]])])
-    mesh_enc = enc_rows(faces)
-    if d.ask("C01.wf", n, w, mesh_enc) != "1" or d.ask("C01.dialectok", denc, n, w, mesh_enc) != "1":
+    arr, at, status, info = ugrid_table(d, faces, n, dl)
+    if status == "encode-mismatch":
+        ctx.mismatch("C01/ugrid/encode", case, *info)
+        return
+    if status != "ok":
         ctx.hit("outside-quantifier(DialectOK fails)")
         return
-    # the harness-side source is the one the theorem's `encodeUgrid` describes
-    lean_src = d.ask("C01.ugrid_enc", denc, w, mesh_enc)
-    mine = " ".join([enc_optcell(at.get("_FillValue")), enc_optint(at.get("start_index")), enc_raw(arr)])
-    if lean_src != mine:
-        ctx.mismatch("C01/ugrid/encode", case, mine[:300], lean_src[:300])
-        return
+    at = dict(at, cf_role="face_node_connectivity")
+    ds[nm["conn"]] = xr.DataArray(arr, dims=[nm["fd"], nm["md"]], attrs=at)
+    # optional tables: every one in its OWN, independently drawn dialect
+    opt = {}
+    if dl.get("tables"):
+        elems = ugrid_optional_elements(faces, n)
+        for k, (name, t) in enumerate(sorted(dl["tables"].items(), key=lambda kv: kv[1].get("order", 0))):
+            rows, n_elem = elems[name]
+            tarr, tat, tstatus, tinfo = ugrid_table(d, rows, n_elem, t)
+            if tstatus == "encode-mismatch":
+                ctx.mismatch("C01/ugrid/encode/" + name, case, *tinfo)
+                return
+            if tstatus == "outside":
+                ctx.hit("ugrid-optional:outside-quantifier")
+                continue
+            var = f"{nm['conn']}_{name[:-13]}"
+            if t.get("via") == "cf_role":
+                tat = dict(tat, cf_role=name)
+            else:
+                ds[nm["mesh"]].attrs[name] = var
+            ds[var] = xr.DataArray(tarr, dims=[f"d{k}_rows", f"d{k}_cols"], attrs=tat)
+            opt[name] = dict(var=var, arr=tarr, at=tat, status=tstatus, pad=tinfo, t=t)
     if case.get("via_file"):
         path = sc.path(".nc")
         ds.to_netcdf(path)
         with xr.open_dataset(path) as seen:
             v = seen[nm["conn"]]
             seen_arr, seen_at = np.asarray(v.values), dict(v.attrs)
+            for o in opt.values():
+                o["arr"], o["at"] = np.asarray(seen[o["var"]].values), dict(seen[o["var"]].attrs)
         src, source = path, None
     else:
         seen_arr, seen_at, src, source = arr, at, ds, ds
-    mt = dec_res(d.ask("C01.ugrid", STORE_CODE[store_of(seen_arr.dtype)], enc_optcell(seen_at.get("_FillValue")),
-                       enc_optint(seen_at.get("start_index")), enc_raw(seen_arr)))
+
+    def model(a, attrs):
+        return dec_res(d.ask("C01.ugrid", STORE_CODE[store_of(a.dtype)], enc_optcell(attrs.get("_FillValue")),
+                             enc_optint(attrs.get("start_index")), enc_raw(a)))
+
+    # every table is decoded by the Lean model from ITS OWN variable only (decodeUgrid_table_local), before any opening
+    mt = model(seen_arr, seen_at)
+    for o in opt.values():
+        o["want"] = model(o["arr"], o["at"])
     exp = dict(faces=faces, lon=case["lon"], lat=case["lat"])
     g = judge(ctx, case, exp, lambda: ux.open_grid(src), mt, expect_n_node=n, source=source)
-    if g is not None and edges is not None and (dl["declared"] or any(0 in e for e in edges)):
-        cls_sig = sig_of(dict(fmt="ugrid", dialect=dialect_class(case)))
+    if g is None:
+        return
+    for name, o in opt.items():
+        t = o["t"]
+        tcls = f"start={t['base'] if t['declared'] else 'absent'}"
         try:
-            v = np.asarray(g.edge_node_connectivity.values)
-            got, dt = [sorted(int(x) for x in r) for r in v.tolist()], str(v.dtype)
+            v = np.asarray(getattr(g, name).values)
+            if v.dtype.kind == "f":
+                got = [[INT_FILL if x != x else int(x) for x in r] for r in v.tolist()]
+            else:
+                got = [[int(x) for x in r] for r in v.tolist()]
+            dt = str(v.dtype)
         except Exception as e:
-            ctx.fail(f"C01/{cls_sig}/carried/edge_node_connectivity/raises", f"ugrid: supplied edge_node_connectivity raises {type(e).__name__}", case)
-            return
+            ctx.fail(f"C01/ugrid/carried/{name}/raises", f"ugrid: supplied {name} raises {type(e).__name__}: {str(e)[:120]}", case)
+            continue
+        if o["status"] == "ambiguous":
+            # undeclared base and the lowest index unused: the source itself is ambiguous, no verdict; recorded
+            ctx.hit("ugrid-ambiguous-undeclared-base:" + ("decoded-as-the-elements" if got == o["pad"] else
+                                                         ("equals-model" if got == o["want"] else "other")))
+            continue
         ctx.hit("carried-table-checked")
-        if got != [sorted(e) for e in edges] or dt != "int64":
-            ctx.fail(f"C01/{cls_sig}/carried/edge_node_connectivity", "ugrid: supplied edge_node_connectivity is not carried over re-based (same node pairs)",
-                     case, dict(table=got[:40], dtype=dt), [sorted(e) for e in edges][:40], ["carried_connectivity"])
+        ctx.hit(f"ugrid-carried:{name}:{tcls}")
+        if o["want"] != o["pad"]:
+            ctx.mismatch("C01/ugrid/model-vs-elements/" + name, case, o["want"][:20], o["pad"][:20])
+            continue
+        if got != o["pad"] or dt != "int64":
+            bad = [(i, j) for i, (r1, r2) in enumerate(zip(got, o["pad"])) for j, (x, y) in enumerate(zip(r1, r2)) if x != y][:5]
+            ctx.fail(f"C01/ugrid/carried/{name}/{tcls}",
+                     f"ugrid: supplied {name} (its own dialect: {tcls}, fill={t['fill']}, {t['store']}; face table: "
+                     f"start={dl['base'] if dl['declared'] else 'absent'}) is not carried over with the same element lists re-based to zero, "
+                     f"standard fill and dtype; first differing entries {bad}",
+                     case, dict(table=got[:40], dtype=dt), o["pad"][:40], ["carried_connectivity"])
 
 
 def case_topology(ctx, case, sc):
@@ -1122,19 +1200,29 @@ def uniform(m):
     return len(set(m.sizes())) == 1
 
 
-def gen_ugrid(rng, m):
+def draw_table_dialect(rng, uniform_rows, allow_std=True):
+    """one table's dialect, drawn independently of every other table of the dataset"""
     store = rng.choice(["i32", "i64", "f64"])
-    fills = [-1, 999999, I32MIN, "nan", "nanattr", INT_FILL]
-    if uniform(m):
+    fills = [-1, 999999, I32MIN, "nan", "nanattr"] + ([INT_FILL] if allow_std else [])
+    if uniform_rows:
         fills += [None, None]
     fill = rng.choice(fills)
     if fill in ("nan", "nanattr"):
         store = "f64"
     if fill == INT_FILL:
         store = "i64"
-    extra = 0 if fill is None else rng.choice([0, 0, 1])
-    c = base_case("ugrid", m, base=rng.choice([0, 1]), declared=rng.random() < 0.6, fill=fill, store=store, extra_w=extra,
-                  names=rng.choice(NAMES), lon360=rng.random() < 0.4, edges=rng.random() < 0.3)
+    return dict(base=rng.choice([0, 1]), declared=rng.random() < 0.55, fill=fill, store=store,
+                extra_w=0 if fill is None else rng.choice([0, 0, 1]))
+
+
+def gen_ugrid(rng, m):
+    t = draw_table_dialect(rng, uniform(m))
+    c = base_case("ugrid", m, names=rng.choice(NAMES), lon360=rng.random() < 0.4, **t)
+    if rng.random() < 0.45 and m.n_face <= 400:
+        names = [x for x in UGRID_OPTIONAL if rng.random() < 0.5] or ["edge_node_connectivity"]
+        rng.shuffle(names)
+        c["dialect"]["tables"] = {x: dict(draw_table_dialect(rng, x == "edge_node_connectivity"), order=i,
+                                          via=rng.choice(["attr", "attr", "cf_role"])) for i, x in enumerate(names)}
     c["via_file"] = rng.random() < 0.25
     return c
 
